@@ -467,7 +467,7 @@ def run(r):
         return
     # the streams are produced and checked part by part to bound memory
     nch = 8 if r.tier == "thorough" else 1
-    parts = [("seg-exh", i, nch) for i in range(nch)] + [("seg-sample", 0, 1), ("seg-fam", 0, 1), ("prog", 0, 1), ("line", 0, 1), ("rand", 0, 1), ("kern", 0, 1), ("entry", 0, 1), ("wrap", 0, 1), ("cfg", 0, 1)]
+    parts = [("seg-exh", i, nch) for i in range(nch)] + [("seg-sample", 0, 1), ("seg-fam", 0, 1), ("prog", 0, 1), ("line", 0, 1), ("rand", 0, 1), ("big", 0, 1), ("kern", 0, 1), ("entry", 0, 1), ("wrap", 0, 1), ("cfg", 0, 1)]
     r.exhaustive = False
     for which, i, n in parts:
         rc, out, err = r.harness(exe, ["gen", r.tier, which, str(i), str(n)])
@@ -505,6 +505,21 @@ def check_lines(r, lines, model, verbose=False):
             r.broken.append(f"driver line {i} is for another case")
             return
         ml = fields_of(mparts)
+        if stream == "big":
+            tlk, famenc, segs = f[1], f[2], f[3]
+            fam, d = parse_fam(famenc)
+            items = parse_segs(segs)
+            r.count(case, True)
+            r.hist["big"]["cases"] += 1
+            spec_py = py_spec(tlk, items)
+            got = render_tok(fl["tok"])
+            if got != spec_py:
+                r.oracle_failure(case[:80], f"lexer output differs from the rules on a text of {len(spec_py)} characters", "big/tok")
+            nb = sum(1 for it in items if it[0] == "B")
+            want = "ok:" + spec_py.replace(VM, "V").replace(BM, "").encode().hex()
+            if nb % 2 == 0 and fl["out"] != want:
+                r.oracle_failure(case[:80], "render differs from the rules on a text beyond 64 KiB", "big/render")
+            continue
         if stream == "kern":
             r.count(case, True)
             which, needle = f[1], bytes.fromhex(f[2])
